@@ -34,6 +34,8 @@ type hprog struct {
 	AbortAfter int  // > 0: break the response off (http.ErrAbortHandler) after this many parts
 	FlushAfter int  // > 0: flush once, after this many parts (and not again)
 	Status2    int  // != 0: a second, superfluous WriteHeader call right after the first (the first must win)
+	Trailer    bool // announce and send a response trailer (X-Sum)
+	EmptyWrite bool // a zero-length Write before the first part
 }
 
 type progServer struct {
@@ -86,6 +88,9 @@ func (ps *progServer) base(w http.ResponseWriter, r *http.Request) {
 		}
 		w.Header().Set("Content-Length", fmt.Sprint(n))
 	}
+	if p.Trailer {
+		w.Header().Set("Trailer", "X-Sum")
+	}
 	if p.Status != 0 {
 		w.WriteHeader(p.Status)
 		if p.Status2 != 0 {
@@ -95,6 +100,12 @@ func (ps *progServer) base(w http.ResponseWriter, r *http.Request) {
 	fl, _ := w.(http.Flusher)
 	if p.FlushFirst && fl != nil {
 		fl.Flush()
+	}
+	if p.Trailer {
+		defer func() { w.Header().Set("X-Sum", "abc123") }()
+	}
+	if p.EmptyWrite {
+		w.Write(nil)
 	}
 	for i, x := range p.Parts {
 		if p.AbortAfter > 0 && i == p.AbortAfter {
@@ -205,13 +216,15 @@ type c14Case struct {
 	Comp     []int
 	Flush    string // none, first (before any write), each, after-first (once, after the first write)
 	Status2  int    // second, superfluous WriteHeader
+	Trailer  bool
+	Empty    bool // zero-length first write
 	Declare  bool
 	Interim  int
 	Entity   int // bodiless response that declares this entity length (HEAD, 304); 0 = none
 }
 
 func (c c14Case) String() string {
-	return fmt.Sprintf("L=%d pos=%s %s status=%d writes=%v flush=%s declare=%v interim=%d entity=%d status2=%d", c.L, c.Position, c.Method, c.Status, c.Comp, c.Flush, c.Declare, c.Interim, c.Entity, c.Status2)
+	return fmt.Sprintf("L=%d pos=%s %s status=%d writes=%v flush=%s declare=%v interim=%d entity=%d status2=%d trailer=%v emptywrite=%v", c.L, c.Position, c.Method, c.Status, c.Comp, c.Flush, c.Declare, c.Interim, c.Entity, c.Status2, c.Trailer, c.Empty)
 }
 
 func (c c14Case) prog() *hprog {
@@ -220,7 +233,7 @@ func (c c14Case) prog() *hprog {
 		hd = append(hd, wire.HeaderLine{"Content-Length", fmt.Sprint(c.Entity)})
 	}
 	return &hprog{Status: c.Status, Header: hd, Parts: partsOf(c.Comp, 5),
-		FlushFirst: c.Flush == "first", FlushEach: c.Flush == "each", DeclareLen: c.Declare, Interim: c.Interim, Status2: c.Status2,
+		FlushFirst: c.Flush == "first", FlushEach: c.Flush == "each", DeclareLen: c.Declare, Interim: c.Interim, Status2: c.Status2, Trailer: c.Trailer, EmptyWrite: c.Empty,
 		FlushAfter: map[bool]int{true: 1}[c.Flush == "after-first"]}
 }
 
@@ -262,6 +275,9 @@ func c14JudgeResponse(c c14Case, with, without wire.Response) (string, string) {
 			add, del := diff(a, b)
 			return "C14/within-limit/headers-changed", fmt.Sprintf("headers added %v missing %v", add, del)
 		}
+		if fmt.Sprint(with.Trailer) != fmt.Sprint(without.Trailer) {
+			return "C14/within-limit/trailer-changed", fmt.Sprintf("trailer %v became %v", without.Trailer, with.Trailer)
+		}
 		return "", ""
 	}
 	// over the limit
@@ -278,7 +294,8 @@ func c14JudgeResponse(c c14Case, with, without wire.Response) (string, string) {
 	if strings.HasPrefix(c.Position, "proxy-") && first > 32*1024 {
 		first = 32 * 1024 // the proxy hands the body on in pieces of its 32 KiB copy buffer
 	}
-	if wantBody && first > c.L && c.Flush != "first" && !streamedByProxy && with.Status != 413 {
+	// (a zero-length first write commits the header like any other write)
+	if wantBody && first > c.L && c.Flush != "first" && !c.Empty && !streamedByProxy && with.Status != 413 {
 		return "C14/over-limit/not-413-although-nothing-was-sent", fmt.Sprintf("the first write alone (%d bytes) exceeds the limit %d before anything was sent, but the client got status %d", first, c.L, with.Status)
 	}
 	if with.Status == 413 && with.Err != "" {
@@ -400,6 +417,22 @@ func TestVerifC14(t *testing.T) {
 						comp = []int{n}
 					}
 					run(c14Case{L: L, Position: pos, Method: "GET", Status: st[0], Status2: st[1], Comp: comp, Flush: "none"})
+				}
+			}
+			// response trailers and a zero-length first write
+			for _, st := range []int{0, 200, 404} {
+				for _, n := range []int{0, 1, L, L + 1} {
+					comp := []int{}
+					if n > 0 {
+						comp = []int{n}
+					}
+					for _, fl := range []string{"none", "first"} {
+						if n > 0 {
+							// (a trailer needs a body to travel behind: without one net/http itself drops it)
+							run(c14Case{L: L, Position: pos, Method: "GET", Status: st, Comp: comp, Flush: fl, Trailer: true})
+						}
+						run(c14Case{L: L, Position: pos, Method: "GET", Status: st, Comp: comp, Flush: fl, Empty: true})
+					}
 				}
 			}
 			// bodiless responses that declare the length of the entity they stand for (what every
